@@ -1,5 +1,6 @@
 import PlzVerif.Base.Proto
 import PlzVerif.Model.LabelFacts
+import PlzVerif.Model.LabelWalk
 /-!
 Line protocol of C20 (strings are hex, one byte = one `Char`; "-" is the empty string; lists are comma
 separated with "_" for the empty list; a label is `pkg:name:sub`):
@@ -12,6 +13,8 @@ separated with "_" for the empty list; a label is `pkg:name:sub`):
   exp  L DIRS               L.isExperimental (dirs from config) -> 0 | 1
   sbx  FLAGS L WL DIRS      validateSandbox                   -> ok | err
   sel  inc|mat P N PKGS     which packages of PKGS the pattern //P:N selects -> bit string
+  cl   P EXP BL PKGS        command-line expansion of //P/... over the repository with packages PKGS,
+                            experimental dirs EXP, blacklist BL -> selected packages, sorted
 -/
 open PlzVerif PlzVerif.Label PlzVerif.Proto
 
@@ -40,6 +43,10 @@ def parseFlags (s : String) : Option (Bool × Bool × Bool × Option Bool) :=
       let t ← (if d = 'n' then some none else if d = 't' then some (some true) else if d = 'f' then some (some false) else none)
       pure (← bb a, ← bb b, ← bb c, t)
   | _ => none
+
+def insertSortedStr (x : Str) : List Str → List Str
+  | [] => [x]
+  | y :: ys => if PlzVerif.Walk.nameLt x y then x :: y :: ys else y :: insertSortedStr x ys
 
 def step (line : String) : String :=
   match line.splitOn " " with
@@ -87,6 +94,19 @@ def step (line : String) : String :=
       else if kind = "mat" then String.join (qs.map fun q => bit (matchesF facts ⟨p, n, []⟩ ⟨q, ['x'], []⟩))
       else "bad-op"
     | _, _, _ => "bad-op"
+  | ["cl", p, exp, bl, pkgs] =>
+    match unhex p, parseList unhex exp, parseList unhex bl, parseList unhex pkgs with
+    | some p, some exp, some bl, some pkgs =>
+      let comps (s : Str) : List Str := if s.isEmpty then [] else PlzVerif.Label.comps s
+      let okName (c : Str) : Bool := PlzVerif.Walk.goodName c && c != PlzVerif.LabelWalk.buildName
+      if !(pkgs.all fun q => (comps q).all okName) || !((comps p).all okName) then "bad-op" else
+      match PlzVerif.LabelWalk.cmdlineSelect PlzVerif.LabelWalk.walkFacts [PlzVerif.LabelWalk.buildName] exp bl (comps p)
+          (PlzVerif.LabelWalk.repoOf (pkgs.map comps)) with
+      | none => "bad-op"
+      | some sel =>
+        let sorted := sel.foldr (fun x acc => insertSortedStr x acc) []
+        if sorted.isEmpty then "_" else ",".intercalate (sorted.map hex)
+    | _, _, _, _ => "bad-op"
   | _ => "bad-op"
 
 def main : IO Unit := runStateless step
